@@ -295,7 +295,7 @@ impl Registry {
                         }
 
                         for tag in &arg.tags {
-                            write!(sdl, " @tag(name: \"{}\")", tag.replace('"', "\\\"")).ok();
+                            write!(sdl, " @tag(name: \"{}\")", escape_string(tag)).ok();
                         }
                     }
 
@@ -335,7 +335,7 @@ impl Registry {
                     write!(sdl, " @inaccessible").ok();
                 }
                 for tag in &field.tags {
-                    write!(sdl, " @tag(name: \"{}\")", tag.replace('"', "\\\"")).ok();
+                    write!(sdl, " @tag(name: \"{}\")", escape_string(tag)).ok();
                 }
                 if let Some(from) = &field.override_from {
                     write!(sdl, " @override(from: \"{}\")", from).ok();
@@ -378,7 +378,7 @@ impl Registry {
                         write!(
                             sdl,
                             " @specifiedBy(url: \"{}\")",
-                            specified_by_url.replace('"', "\\\"")
+                            escape_string(specified_by_url)
                         )
                         .ok();
                     }
@@ -388,7 +388,7 @@ impl Registry {
                             write!(sdl, " @inaccessible").ok();
                         }
                         for tag in tags {
-                            write!(sdl, " @tag(name: \"{}\")", tag.replace('"', "\\\"")).ok();
+                            write!(sdl, " @tag(name: \"{}\")", escape_string(tag)).ok();
                         }
                         if !requires_scopes.is_empty() {
                             write_requires_scopes(sdl, requires_scopes);
@@ -479,7 +479,7 @@ impl Registry {
                     }
 
                     for tag in tags {
-                        write!(sdl, " @tag(name: \"{}\")", tag.replace('"', "\\\"")).ok();
+                        write!(sdl, " @tag(name: \"{}\")", escape_string(tag)).ok();
                     }
 
                     if !requires_scopes.is_empty() {
@@ -524,7 +524,7 @@ impl Registry {
                     }
 
                     for tag in tags {
-                        write!(sdl, " @tag(name: \"{}\")", tag.replace('"', "\\\"")).ok();
+                        write!(sdl, " @tag(name: \"{}\")", escape_string(tag)).ok();
                     }
 
                     if !requires_scopes.is_empty() {
@@ -560,7 +560,7 @@ impl Registry {
                         write!(sdl, " @inaccessible").ok();
                     }
                     for tag in tags {
-                        write!(sdl, " @tag(name: \"{}\")", tag.replace('"', "\\\"")).ok();
+                        write!(sdl, " @tag(name: \"{}\")", escape_string(tag)).ok();
                     }
 
                     if !requires_scopes.is_empty() {
@@ -592,7 +592,7 @@ impl Registry {
                         }
 
                         for tag in &value.tags {
-                            write!(sdl, " @tag(name: \"{}\")", tag.replace('"', "\\\"")).ok();
+                            write!(sdl, " @tag(name: \"{}\")", escape_string(tag)).ok();
                         }
                     }
 
@@ -629,7 +629,7 @@ impl Registry {
                         write!(sdl, " @inaccessible").ok();
                     }
                     for tag in tags {
-                        write!(sdl, " @tag(name: \"{}\")", tag.replace('"', "\\\"")).ok();
+                        write!(sdl, " @tag(name: \"{}\")", escape_string(tag)).ok();
                     }
                 }
 
@@ -655,7 +655,7 @@ impl Registry {
                             write!(sdl, " @inaccessible").ok();
                         }
                         for tag in &field.tags {
-                            write!(sdl, " @tag(name: \"{}\")", tag.replace('"', "\\\"")).ok();
+                            write!(sdl, " @tag(name: \"{}\")", escape_string(tag)).ok();
                         }
                     }
                     for directive in &field.directive_invocations {
@@ -685,7 +685,7 @@ impl Registry {
                         write!(sdl, " @inaccessible").ok();
                     }
                     for tag in tags {
-                        write!(sdl, " @tag(name: \"{}\")", tag.replace('"', "\\\"")).ok();
+                        write!(sdl, " @tag(name: \"{}\")", escape_string(tag)).ok();
                     }
                 }
 
